@@ -47,6 +47,7 @@ type Scenario struct {
 	ViaSched    bool      `json:"via_sched,omitempty"`    // cancel through Scheduler.Cancel
 	CondErr     string    `json:"cond_err,omitempty"`     // pipeline mode: this stage's condition cannot be evaluated
 	Finish      bool      `json:"finish,omitempty"`       // call Finish at the end
+	Overlap     bool      `json:"overlap,omitempty"`      // C04: the tasks are independent and must all be inside a command at the first quiescent point
 	DirectAfter string    `json:"direct_after,omitempty"` // pipeline mode: after the pipeline, this task is run once more directly
 	Unused      bool      `json:"unused,omitempty"`       // an extra context nobody uses exists
 	Index       int64     `json:"index"`
